@@ -561,5 +561,85 @@ class WithOtherOptions(Part):
         return res
 
 
+class SecretsFoundInTheirOwnLine(Part):
+    name = "secrets_whose_text_occurs_earlier_on_their_own_line"
+    desc = ("every form with a secret that is a word of its own statement, a 2..4 character piece of one of its keywords, or "
+            "equal to the free-text words before it (user name, host name), against the same line with an unrelated secret of "
+            "the same length: identical output, the secret's own position holds the pseudonym")
+
+    def __init__(self, tier, seed):
+        self.tier, self.seed = tier, seed
+        cat = secdom.catalogue()
+        # groups with several patterns (cipher + authenticator, auth + priv) treat more than one slot as secret
+        multi = {f["group"] for f in cat if (f.get("regex_index") or 0) > 0}
+        self.forms = {f["id"]: f for f in cat if not f["scrub"] and "text" in f["classes"] and f["group"] not in multi}
+
+    def cases(self):
+        return [{"form": fid} for fid in sorted(self.forms)]
+
+    @staticmethod
+    def _unrelated(n, line, k):
+        """The k-th string of length n over letters that do not occur in keywords, absent from the line;
+        distinct k give distinct strings, so both runs see equally many distinct secrets."""
+        alpha = "qzjxkvwy"
+        for j in range(k * 7, k * 7 + 7):
+            digits, x = [], j
+            for _ in range(n):
+                digits.append(alpha[x % 8])
+                x //= 8
+            cand = "".join(digits)
+            if x == 0 and cand.lower() not in line.lower():
+                return cand
+        return None
+
+    def run(self, case):
+        res = Res()
+        f = self.forms[case["form"]]
+        reserved = {w.lower() for w in reserved_snapshot()}
+        nslots = f["slots"]
+        marked = secdom.fill(f["template"], ["\x00"] * 2)
+        before = marked.split("\x00")[0]
+        pieces = []
+        for tok in re.findall(r"[A-Za-z][A-Za-z-]*", before):
+            pieces.append(tok)
+            for n in (2, 3, 4):
+                for i in sorted({0, max(0, (len(tok) - n) // 2), max(0, len(tok) - n)}):
+                    if len(tok) > n:
+                        pieces.append(tok[i:i + n])
+        pieces = [p for p in dict.fromkeys(pieces)
+                  if p.lower() not in reserved and not re.fullmatch(r"[0-9a-fA-F]+", p) and p[0].isalpha() and p[-1].isalpha()]
+        # a form that already fails with two unrelated secrets is the catalogue part's business (known findings)
+        x, y = self._unrelated(6, before, 900), self._unrelated(6, before, 901)
+        base, _ = secdom.run_lines_isolated([secdom.fill(f["template"], [x] * nslots), secdom.fill(f["template"], [y] * nslots)], "saltForTest")
+        if isinstance(base[0], tuple) or isinstance(base[1], tuple) or x in base[0] or y in base[1]:
+            res.count("forms_left_to_the_catalogue_part")
+            return res
+        la, lb, sigs, reps = [], [], [], []
+        for A in pieces:
+            if "only" in case and case["only"] != [A, "piece"]:
+                continue
+            B = self._unrelated(len(A), before, pieces.index(A))
+            if B is None:
+                continue
+            la.append(secdom.fill(f["template"], [A] * nslots))
+            lb.append(secdom.fill(f["template"], [B] * nslots))
+            sigs.append(("%s|text|own-line-piece|ctx=0.0.0" % f["id"], False))
+            reps.append({"form": f["id"], "only": [A, "piece"]})
+        if " w " in " " + f["template"] + " " or " w; " in " " + f["template"] + " ":
+            for A in ("rtrbkp", "tac1x", "Lab4x"):
+                if "only" in case and case["only"] != [A, "word"]:
+                    continue
+                B = self._unrelated(len(A), before, 600 + len(la))
+                la.append(secdom.fill(f["template"], [A] * nslots, words=[A] * 6))
+                lb.append(secdom.fill(f["template"], [B] * nslots, words=[A] * 6))
+                sigs.append(("%s|text|same-as-free-text-word|ctx=0.0.0" % f["id"], False))
+                reps.append({"form": f["id"], "only": [A, "word"]})
+        if la:
+            compare_runs(res, la, lb, "saltForTest", sigs, reps)
+        if "only" not in case:
+            res.samples.append({"form": f["id"], "pieces": pieces[:8], "lines": len(la)})
+        return res
+
+
 def parts(tier, seed):
-    return [Forms(tier, seed), Standalone(tier, seed), Sequences(tier, seed), SeveralOnOneLine(tier, seed), PunctuatedHashes(tier, seed), Columns(tier, seed), WithOtherOptions(tier, seed)]
+    return [Forms(tier, seed), Standalone(tier, seed), Sequences(tier, seed), SeveralOnOneLine(tier, seed), PunctuatedHashes(tier, seed), Columns(tier, seed), WithOtherOptions(tier, seed), SecretsFoundInTheirOwnLine(tier, seed)]
